@@ -155,6 +155,8 @@ Record ccase := {
   cc_cipher_w : N; cc_cipher_r : N;   (* bytes of ciphertext the proxy wrote to / read from it over the whole connection *)
   cc_head : list N;          (* the request head the client sent ([] = not compared: served through net/http's own reader) *)
   cc_lcsched : list nat;     (* sizes returned by the proxy's Reads on the client connection up to the reply *)
+  cc_farhead : list N;       (* Upgrade: the 101 response head the scripted target sent ([] otherwise) *)
+  cc_dcsched : list nat;     (* sizes returned by the proxy's Reads on the dialled connection up to the reply *)
   cc_socks : list N;         (* SOCKS5 upstream: the method-selection and CONNECT replies the scripted server sent ([] otherwise) *)
   cc_dcread0 : N;            (* bytes the proxy read from the dialled connection before it replied to the client *)
   cc_early : list N; cc_skip : list N; cc_kept : list N;
@@ -251,8 +253,17 @@ Definition socks_ok (c : ccase) : bool :=
   | None => false
   end.
 
+(* Upgrade: the bytes net/http's transport holds behind the 101 head are what the model of its reader
+   (same reader, forwarder's ReadBufferSize) holds after parsing that head from the target's stream *)
+Definition kept_ok (c : ccase) : bool :=
+  is_nil (cc_farhead c) ||
+  match predicted_early (N.to_nat transport_read_buffer) (cc_farhead c) (o_sent (o_tc (cc_obs c))) (cc_dcsched c) with
+  | Some e => str_eqb e (cc_kept c)
+  | None => false
+  end.
+
 Definition cmodel_ok (c : ccase) : bool :=
-  cc_wellformed c && early_ok c && socks_ok c && skip_ok (cc_mode c) (cc_fr c) (len (o_sent (o_tc (cc_obs c)))) (len (cc_skip c)) &&
+  cc_wellformed c && early_ok c && kept_ok c && socks_ok c && skip_ok (cc_mode c) (cc_fr c) (len (o_sent (o_tc (cc_obs c)))) (len (cc_skip c)) &&
   match cc_trace c with
   | None => false
   | Some tr =>
